@@ -139,6 +139,34 @@ extern "C" void harness() {
     { G c = g; CHECK(c == g, "a copy-constructed graph equals its source"); }
 #elif Q == 5
     { G c(0); c = g; CHECK(!(c != g), "a copy-assigned graph equals its source"); }
+#elif Q == 8 || Q == 9
+    // two histories of the same graph: a no-op removal (Q=8) / an insertion undone by a removal (Q=9) must not change the verdict
+    if (NG > 0) {
+        G before = g;
+        unsigned a = nd(NG), b = nd(NG);
+#if Q == 8
+        ASSUME(!A.C[a][b]);
+#if KIND == 2 || KIND == 3
+        if (ndb()) g.removeEdge(a, b); else g.removeMultiedge(a, b, nd(4));
+#else
+        g.removeEdge(a, b);
+#endif
+        REACH("an absent edge was 'removed'");
+#else
+        ASSUME(!A.C[a][b]);
+#if KIND == 2 || KIND == 3
+        { unsigned k = 1 + nd(3); g.addMultiedge(a, b, k); if (ndb()) g.removeMultiedge(a, b, k); else g.setEdgeMultiplicity(a, b, 0); }
+#elif KIND >= 4
+        g.addEdge(a, b, pick4()); g.removeEdge(a, b);
+#elif LT != 0
+        g.addEdge(a, b, pick4()); if (UND && ndb()) g.removeEdge(b, a); else g.removeEdge(a, b);
+#else
+        g.addEdge(a, b); g.removeEdge(a, b);
+#endif
+        REACH("an edge was added and removed again");
+#endif
+        CHECK(g == before, "two histories that denote the same graph compare equal");
+    }
 #elif Q == 6 || Q == 7
     // a copy is unaffected by later changes to its source (observed through the copy's own observers)
 #if Q == 6
